@@ -93,6 +93,8 @@ def _param_names(pred):
 
 def _env_of(interp, frame, extra):
     env = {}
+    if interp.collect is not None:
+        env['yielded'] = interp.collect[1]
     if frame.info.filename.endswith('functools_model.py'):
         # library model: the call site's names are visible to the invariant
         for fr in reversed(interp.frame_stack):
@@ -120,9 +122,19 @@ def _havoc(interp, frame, spec, modified_names, tag):
             continue
         frame.locals[name] = ty.make(interp, '%s@%s' % (name, tag))
     for name, ty in spec.modifies.items():
+        if name == 'yielded':
+            if interp.collect is None:
+                raise Unsupported('modifies yielded outside a generator under verification')
+            ys = interp.collect[1]
+            n = interp.st.fresh_int('yielded.len@%s' % tag)
+            interp.st.assume(n >= 0)
+            ys.length = n
+            continue
         if name.startswith('ghost:'):
             # ghost state (interp.st.ghost) changed by models/contracts called in the body
             interp.st.ghost[name[6:]] = ty.make(interp, '%s@%s' % (name, tag))
+            continue
+        if name == 'yielded':
             continue
         if name not in modified_names and ty != 'local' and not name.startswith('@'):
             if '.' in name:
@@ -289,7 +301,11 @@ def _for_symbolic(interp, node, frame, src):
         if it_cell is not None:
             it_cell.pos = wrap(i + 1)
         interp.assign(node.target, x, frame)
-        r = interp.exec_block(node.body, frame)
+        interp.loop_index_stack.append(i)
+        try:
+            r = interp.exec_block(node.body, frame)
+        finally:
+            interp.loop_index_stack.pop()
         if r is not None and r[0] != 'continue':
             if r[0] == 'break':
                 return None
